@@ -115,7 +115,14 @@ def run(prog, rep, tier):
         raise Inconclusive("regress: expected a single `return (coefs, intercept)`", f.node)
     coefs_t, icpt_t = rets[0].value[1]
     has_store = any(x == stores[0].base or (isinstance(x, tuple) and x[0] == "store") for x in walk(coefs_t)) if stores else False
-    rep.check("RETURN.coefs", has_store and any(isinstance(x, tuple) and x[0] == "store" and stores and x[1] == stores[0].base for x in walk(coefs_t)), fwhere(f, rets[0].node),
+    def is_written_vector(t):
+        # the vector after the store, the untouched zero vector on the other branch, or a copy of either
+        while isinstance(t, tuple) and ((t[0] == "method" and t[2] == "copy" and not t[3]) or (t[0] == "ext" and t[1] in ("numpy.array", "numpy.copy") and len(t[2]) == 1 and not t[3])):
+            t = t[1] if t[0] == "method" else t[2][0]
+        if isinstance(t, tuple) and t[0] == "phi":
+            return is_written_vector(t[2]) and is_written_vector(t[3])
+        return bool(stores) and (t == stores[0].base or (isinstance(t, tuple) and t[0] == "store" and t[1] == stores[0].base))
+    rep.check("RETURN.coefs", has_store and is_written_vector(coefs_t) and any(isinstance(x, tuple) and x[0] == "store" for x in walk(coefs_t)), fwhere(f, rets[0].node),
               "first result is the coefficient vector", "first result is not the written coefficient vector")
     Mi = MNF(symmetric=[C], scalars=[Py], vectors=[coefs_t, MU])
     try:
